@@ -898,7 +898,7 @@ def dnsLoop (l : Bytes) (follow : Nat → List Bytes → Option (Nat × List Byt
         match l[index + 1]? with
         | none => none
         | some lo =>
-          match follow ((c % 4) * 256 + lo.toNat) acc with                     -- only 10 of the 14 offset bits are used (`& 0x3`)
+          match follow ((c % 64) * 256 + lo.toNat) acc with                    -- the 14 offset bits (`& 0x3f`, fix 668fdf7)
           | none => none
           | some (_, acc') => some (index + 1, acc')
       else if c = 0 then some (index, acc)
@@ -906,9 +906,11 @@ def dnsLoop (l : Bytes) (follow : Nat → List Bytes → Option (Nat × List Byt
         let lab := sl l (index + 1) (index + 1 + c)
         if utf8Valid lab.length lab then dnsLoop l follow steps (index + 1 + c) (acc ++ [lab]) else none   -- `.decode()`
 
-/-- `_read_dns_name_from_index` with `hops` nested calls available.  A pointer chain without a loop visits each of the 1024
-reachable offsets at most once, so `dnsHops` is enough for every loop-free name; a pointer loop (Python: recursion until
-`RecursionError`, caught by parse) uses them up. -/
+/-- `_read_dns_name_from_index` with `hops` nested calls available.  Python follows a pointer by a nested call and gives up
+(`RecursionError`, caught by parse) when the interpreter's stack (1000 frames by default) is used up: `dnsHops` is more than it can
+ever follow, so a name the code reads is read here too, and a pointer loop uses the hops up.  (Before fix 668fdf7 only 10 offset bits
+were used and a loop-free chain could not be longer than 1024; with 14 bits a message of 16 KiB can hold a loop-free chain that is
+longer than the interpreter's stack: there — between about 970 and 1025 hops — the model reads the name and the code gives up.) -/
 def dnsName (l : Bytes) : Nat → Nat → List Bytes → Option (Nat × List Bytes)
   | 0, _, _ => none
   | hops+1, index, acc => dnsLoop l (dnsName l hops) (l.length + 1) index acc
